@@ -443,9 +443,9 @@ class DiffRHS(object):
     def set_jac_base_order(self, order):
         if self.__jac_is_wrapped_rhs:
             self.__jac_wrapped_rhs_order = order
-            self.__jac = deutil.JacobianWrapper(lambda y, **kwargs: self.rhs(0.0, y, **kwargs),
-                                                base_order=self.__jac_wrapped_rhs_order, flat=True)
-            self.__jac_time = 0.0
+            # The finite difference wrapper is rebuilt with this order by the next request: around the counted call, at
+            # the requested time and in the same layout as any other estimate
+            self.__jac_time = None
 
     def __str__(self):
         return self.equ_repr
